@@ -27,7 +27,7 @@ CLAIM = dict(
 
 WHICH = {'C04': ('traj', 'dwf_rowsb', 'C04disc'), 'C05': ('init', 'dinit_okb', 'C05disc'),
          'C09': ('tx', 'dtx_okb', 'C09disc'), 'C10': ('cons', 'consistent_b', 'C10disc')}
-PROVED = {'DSIR': True, 'BSIR': True, 'SIS': True, 'PSIR': False}
+PROVED = {'DSIR': True, 'BSIR': True, 'SIS': True, 'PSIR': True}
 
 
 def in_domain(case):
